@@ -1,20 +1,30 @@
 (** Executable model of AdGuard Home's DNS filtering pipeline
-    (internal/dnsforward/process.go, filter.go, msg.go;
-    internal/filtering/filtering.go CheckHost, matchHost, blocked.go).
+    (internal/dnsforward/process.go, filter.go, msg.go, dnsrewrite.go;
+    internal/filtering/filtering.go CheckHost, processRewrites, matchHost,
+    dnsrewrite.go, hosts.go, safesearch.go, blocked.go).
     No proofs here.
 
     Layer A: everything AdGuard Home itself decides.  The two rule engines
     and the upstream are parameters ([engines], [upstream]); the evaluator
     instantiates the engines with [RuleEngine.match_request] over the rule
     lists the harness loaded into the real engines, and the upstream with the
-    scripted answer.
+    scripted answers.
 
-    Not modelled (assumed off in the harness, see props/C01.json): legacy
-    rewrites, $dnsrewrite rules, the hosts-file container, safe search, DDR,
-    DHCP host names, ipset, DNS64, DNSSEC AD-bit handling, a block-page host
-    given as a name (it is resolved upstream). *)
+    Inside the model (round 2): the legacy rewrites as the first step of
+    CheckHost (the model of C06, [Model/Rewrites.v]), $dnsrewrite results in
+    matchHost (before the protection gate, as written) and their answers
+    (filterDNSRewrite), the hosts-file container (matchSysHosts), safe search
+    (the verdict of [SafeSearch.CheckHost] is an oracle, what the pipeline does
+    with it is modelled), a block-page host given as a NAME (resolved through
+    the upstream), the stages DDR, DHCP hosts, DHCP addrs, the rewritten
+    question and its restoration, the DHCP-host NXDOMAIN of processUpstream.
+
+    Not modelled (assumed off in the harness, see props/C01.json): ipset
+    (does not touch the response), DNS64 synthesis inside dnsproxy, DNSSEC
+    AD-bit handling, per-client safe-search engines, custom upstreams. *)
 From Coq Require Import List NArith Bool.
 From AGH Require Import Base.Run Base.NetAddr Base.RuleEngine.
+From AGH Require Model.Rewrites.
 Import ListNotations.
 Local Open Scope N_scope.
 
@@ -22,7 +32,9 @@ Local Open Scope N_scope.
 
 Definition tA : N := 1.
 Definition tCNAME : N := 5.
+Definition tPTR : N := 12.
 Definition tAAAA : N := 28.
+Definition tSVCB : N := 64.
 Definition tHTTPS : N := 65.
 
 (** An address together with the text the code matches rules against
@@ -39,6 +51,7 @@ Inductive rdata :=
   | DAAAA (a : taddr)
   | DCNAME (target : bytes)          (* FQDN as in the record *)
   | DHTTPS (params : list svcparam)
+  | DPTR (target : bytes)
   | DOther (ty : N) (id : N).        (* any other record, opaque *)
 
 Record rr := mkRR { rr_name : bytes; rr_ttl : N; rr_data : rdata }.
@@ -54,8 +67,9 @@ Definition rcRefused : N := 5.
 
 Inductive bmode := MDefault | MRefused | MNXDomain | MNullIP | MCustomIP.
 
-(** The block page of safe browsing / parental control. *)
-Inductive blockhost := BHEmpty | BHAddr (a : addr).
+(** The block page of safe browsing / parental control: nothing, an address
+    ([netip.ParseAddr] succeeds) or a host name. *)
+Inductive blockhost := BHEmpty | BHAddr (a : addr) | BHName (n : bytes).
 
 Record pclient := mkPClient {
   pc_name : bytes;
@@ -65,7 +79,9 @@ Record pclient := mkPClient {
   pc_parental : bool;
   pc_use_own_services : bool;
   pc_services : list bytes;
-  pc_services_paused : bool          (* the client's pause schedule contains now *)
+  pc_services_paused : bool;         (* the client's pause schedule contains now *)
+  pc_safesearch : bool;
+  pc_tags : list bytes               (* sorted *)
 }.
 
 Record cfg := mkCfg {
@@ -83,40 +99,68 @@ Record cfg := mkCfg {
   c_services_paused : bool;          (* the global pause schedule contains now *)
   c_service_table : list (bytes * list nrule);
   c_sb_host : blockhost;
-  c_par_host : blockhost
+  c_par_host : blockhost;
+  (* round 2 *)
+  c_rewrites : list Rewrites.entry;  (* legacy rewrites, normalised *)
+  c_hosts_on : bool;                 (* conf.EtcHosts != nil *)
+  c_hosts_byname : list (bytes * list addr);   (* hostsfile.Storage.ByName *)
+  c_hosts_byaddr : list (addr * list bytes);   (* hostsfile.Storage.ByAddr *)
+  c_arpa : list (bytes * addr);      (* netutil.IPFromReversedAddr on the names in play *)
+  c_safesearch : bool;               (* conf.SafeSearchConf.Enabled (a safe-search filter is installed) *)
+  c_ddr : option (list N);           (* HandleDDR: the SVCB records makeDDRResponse builds, by id *)
+  c_dhcp_on : bool;                  (* dhcpServer.Enabled() *)
+  c_local_suffix : bytes;            (* localDomainSuffix *)
+  c_dhcp_hosts : list (bytes * addr);   (* IPByHost *)
+  c_dhcp_addrs : list (addr * bytes);   (* HostByIP *)
+  c_dns64 : option N                 (* dns64Pref as the 128-bit value of its /96 address *)
 }.
 
 Record request := mkRequest {
   q_name : bytes;                    (* FQDN as sent, case preserved *)
   q_qtype : N;
   q_addr : addr;                     (* client address *)
-  q_client : option pclient          (* the persistent client found for it *)
+  q_client : option pclient;         (* the persistent client found for it *)
+  q_private_client : bool;           (* proxy.DNSContext.IsPrivateClient *)
+  q_private_rdns : option addr       (* RequestedPrivateRDNS.Addr(), None = zero prefix *)
 }.
 
 (** * Filtering results *)
 
 Inductive reason :=
   | NotFilteredNotFound | NotFilteredAllowList
-  | FilteredBlockList | FilteredSafeBrowsing | FilteredParental | FilteredBlockedService.
+  | FilteredBlockList | FilteredSafeBrowsing | FilteredParental | FilteredBlockedService
+  | FilteredSafeSearch | RewrittenLegacy | RewrittenAutoHosts | RewrittenRule.
 
-Definition reason_eqb (a b : reason) : bool :=
-  match a, b with
-  | NotFilteredNotFound, NotFilteredNotFound | NotFilteredAllowList, NotFilteredAllowList
-  | FilteredBlockList, FilteredBlockList | FilteredSafeBrowsing, FilteredSafeBrowsing
-  | FilteredParental, FilteredParental | FilteredBlockedService, FilteredBlockedService => true
-  | _, _ => false
+Definition reason_code (r : reason) : N :=
+  match r with
+  | NotFilteredNotFound => 0 | NotFilteredAllowList => 1
+  | FilteredBlockList => 3 | FilteredSafeBrowsing => 4 | FilteredParental => 5
+  | FilteredSafeSearch => 7 | FilteredBlockedService => 8
+  | RewrittenLegacy => 9 | RewrittenAutoHosts => 10 | RewrittenRule => 11
   end.
+
+Definition reason_eqb (a b : reason) : bool := reason_code a =? reason_code b.
+
+(** A value of a $dnsrewrite / hosts-file answer. *)
+Inductive rrvalue := VAddr (a : addr) | VName (n : bytes) | VNil.
+
+(** DNSRewriteResult: the RCODE and the values by record type, in order. *)
+Record drwresult := mkDRW { dw_rcode : N; dw_resp : list (N * rrvalue) }.
 
 Record result := mkResult {
   r_reason : reason;
   r_filtered : bool;
   r_service : bytes;
-  r_rules : list (N * option addr)   (* rule id, IP of a hosts-style rule *)
+  r_rules : list (N * option addr);  (* rule id, IP of a hosts-style rule *)
+  r_canon : bytes;                   (* CanonName *)
+  r_iplist : list addr;              (* IPList *)
+  r_drw : option drwresult           (* DNSRewriteResult *)
 }.
 
-Definition no_result : result := mkResult NotFilteredNotFound false [] [].
+Definition no_result : result := mkResult NotFilteredNotFound false [] [] [] [] None.
 
-Definition matched (r : result) : bool := negb (reason_eqb (r_reason r) NotFilteredNotFound).
+Definition matched (r : result) : bool :=
+  match r_reason r with NotFilteredNotFound => false | _ => true end.
 
 Record settings := mkSettings {
   st_protection : bool;
@@ -125,7 +169,9 @@ Record settings := mkSettings {
   st_parental : bool;
   st_client_name : bytes;
   st_client_ip : addr;
-  st_services : list (bytes * list nrule)
+  st_services : list (bytes * list nrule);
+  st_safesearch : bool;
+  st_client_tags : list bytes
 }.
 
 (** Server.UpdatedProtectionStatus *)
@@ -152,6 +198,7 @@ Definition client_settings (c : cfg) (q : request) : settings :=
   match q_client q with
   | None =>
       mkSettings (protection_on c) (c_filtering c) (c_safebrowsing c) (c_parental c) [] (q_addr q) global_svcs
+                 (c_safesearch c) []
   | Some p =>
       let svcs :=
         if pc_use_own_services p then
@@ -159,11 +206,52 @@ Definition client_settings (c : cfg) (q : request) : settings :=
         else global_svcs in
       if pc_use_own_settings p then
         mkSettings (protection_on c) (pc_filtering p) (pc_safebrowsing p) (pc_parental p)
-                   (pc_name p) (q_addr q) svcs
+                   (pc_name p) (q_addr q) svcs (pc_safesearch p) (pc_tags p)
       else
         mkSettings (protection_on c) (c_filtering c) (c_safebrowsing c) (c_parental c)
-                   (pc_name p) (q_addr q) svcs
+                   (pc_name p) (q_addr q) svcs (c_safesearch c) (pc_tags p)
   end.
+
+(** processFilteringBeforeRequest for a locally served ARPA name: the
+    redundant filters are switched off in the settings. *)
+Definition rdns_settings (st : settings) : settings :=
+  mkSettings (st_protection st) (st_filtering st) false false (st_client_name st) (st_client_ip st) []
+             false (st_client_tags st).
+
+Definition request_settings (c : cfg) (q : request) : settings :=
+  match q_private_rdns q with
+  | Some _ => rdns_settings (client_settings c q)
+  | None => client_settings c q
+  end.
+
+(** * Small helpers *)
+
+Definition trim_dot (s : bytes) : bytes :=
+  match rev s with 46 :: r => rev r | _ => s end.
+
+(** dns.Fqdn *)
+Definition fqdn (s : bytes) : bytes :=
+  match rev s with 46 :: _ => s | _ => s ++ [46] end.
+
+Fixpoint assoc_bytes {A} (tbl : list (bytes * A)) (k : bytes) : option A :=
+  match tbl with
+  | [] => None
+  | (k', v) :: rest => if eqb_bytes k' k then Some v else assoc_bytes rest k
+  end.
+
+Fixpoint assoc_addr {A} (tbl : list (addr * A)) (k : addr) : option A :=
+  match tbl with
+  | [] => None
+  | (k', v) :: rest => if addr_eqb k' k then Some v else assoc_addr rest k
+  end.
+
+Definition addr_of_ip (i : Rewrites.ip) : addr :=
+  mkAddr (if Rewrites.ip_is4 i then V4 else V6) (Rewrites.ip_val i) [].
+
+(** The verdict of a safe-search filter for a host and type
+    ([filtering.SafeSearch.CheckHost], [safesearch.Default.newResult]): an
+    address of the asked family, or a new canonical name (possibly empty). *)
+Inductive ssverdict := SSAddr (a : addr) | SSCname (n : bytes).
 
 (** * Host checkers *)
 
@@ -173,9 +261,16 @@ Section Engines.
   Variable allow_eng block_eng : ufreq -> dnsresult * bool.
   (** Safe-browsing and parental verdicts for a host. *)
   Variable sb_oracle par_oracle : bytes -> bool.
+  (** Safe-search verdicts. *)
+  Variable ss_oracle : bytes -> N -> option ssverdict.
+  (** slices.SortFunc inside findRewrites (not stable). *)
+  Variable rw_sort : list Rewrites.entry -> list Rewrites.entry.
 
   Definition host_rule_entries (hs : list hrule) : list (N * option addr) :=
     map (fun h => (hr_id h, Some (hr_ip h))) hs.
+
+  Definition plain_result (rs : reason) (filtered : bool) (svc : bytes) (rules : list (N * option addr)) : result :=
+    mkResult rs filtered svc rules [] [] None.
 
   (** matchHostProcessAllowList *)
   Definition allowlist_result (dr : dnsresult) : result :=
@@ -188,15 +283,15 @@ Section Engines.
           | [] => map (fun h => (hr_id h, None)) (dr_v6 dr)
           end
       end in
-    mkResult NotFilteredAllowList false [] rules.
+    plain_result NotFilteredAllowList false [] rules.
 
   (** hostResultForOtherQType *)
   Definition other_qtype_result (dr : dnsresult) : result :=
     match dr_v4 dr with
-    | h :: _ => mkResult FilteredBlockList true [] [(hr_id h, None)]
+    | h :: _ => plain_result FilteredBlockList true [] [(hr_id h, None)]
     | [] =>
         match dr_v6 dr with
-        | h :: _ => mkResult FilteredBlockList true [] [(hr_id h, None)]
+        | h :: _ => plain_result FilteredBlockList true [] [(hr_id h, None)]
         | [] => no_result
         end
     end.
@@ -205,33 +300,64 @@ Section Engines.
   Definition blocklist_result (qt : N) (dr : dnsresult) : result :=
     match dr_net dr with
     | Some n =>
-        if nr_white n then mkResult NotFilteredAllowList false [] [(nr_id n, None)]
-        else mkResult FilteredBlockList true [] [(nr_id n, None)]
+        if nr_white n then plain_result NotFilteredAllowList false [] [(nr_id n, None)]
+        else plain_result FilteredBlockList true [] [(nr_id n, None)]
     | None =>
         if qt =? tA then
           match dr_v4 dr with
-          | _ :: _ => mkResult FilteredBlockList true [] (host_rule_entries (dr_v4 dr))
+          | _ :: _ => plain_result FilteredBlockList true [] (host_rule_entries (dr_v4 dr))
           | [] => other_qtype_result dr
           end
         else if qt =? tAAAA then
           match dr_v6 dr with
-          | _ :: _ => mkResult FilteredBlockList true [] (host_rule_entries (dr_v6 dr))
+          | _ :: _ => plain_result FilteredBlockList true [] (host_rule_entries (dr_v6 dr))
           | [] => other_qtype_result dr
           end
         else other_qtype_result dr
     end.
 
+  (** processDNSRewrites over the rules DNSRewrites() returned: the first new
+      CNAME wins at once, a non-zero RCODE wins at once, NOERROR values are
+      collected by record type. *)
+  Fixpoint process_dns_rewrites (rs : list nrule) (vals : list (N * rrvalue)) (rules : list (N * option addr))
+      : result :=
+    match rs with
+    | [] => mkResult RewrittenRule false [] rules [] [] (Some (mkDRW 0 vals))
+    | nr :: rest =>
+        match the_drw nr with
+        | DRWCname n => mkResult RewrittenRule false [] [(nr_id nr, None)] n [] None
+        | DRWRcode 0 => process_dns_rewrites rest (vals ++ [(0, VNil)]) (rules ++ [(nr_id nr, None)])
+        | DRWAddr a =>
+            process_dns_rewrites rest (vals ++ [(if is4 a then tA else tAAAA, VAddr a)])
+                                 (rules ++ [(nr_id nr, None)])
+        | DRWRcode rc => mkResult RewrittenRule false [] [(nr_id nr, None)] [] [] (Some (mkDRW rc []))
+        end
+    end.
+
+  (** processDNSResultRewrites *)
+  Definition dnsrewrite_result (dr : dnsresult) (host : bytes) : result :=
+    match dns_rewrites dr with
+    | [] => no_result
+    | rs =>
+        let res := process_dns_rewrites rs [] [] in
+        if eqb_bytes (r_canon res) host then no_result else res
+    end.
+
   (** DNSFilter.matchHost: allow engine first (only when protection is on),
-      then the block engine; without protection nothing is reported. *)
+      then the block engine; its $dnsrewrite rules are looked at before
+      anything else and whatever the protection state; without protection
+      no other block-list result is reported. *)
   Definition match_host (st : settings) (host : bytes) (qt : N) : result :=
     if negb (st_filtering st) then no_result
     else
-      let rq := mkReq host qt (st_client_name st) (Some (st_client_ip st)) in
+      let rq := mkReq host qt (st_client_name st) (Some (st_client_ip st)) (st_client_tags st) in
       let allow := if st_protection st then allow_eng rq else (empty_result, false) in
       if snd allow then allowlist_result (fst allow)
       else
         let blk := block_eng rq in
-        if negb (snd blk) then no_result
+        let rw := dnsrewrite_result (fst blk) host in
+        if matched rw then rw
+        else if negb (snd blk) then no_result
         else if negb (st_protection st) then no_result
         else blocklist_result qt (fst blk).
 
@@ -241,7 +367,7 @@ Section Engines.
     match svcs with
     | [] => None
     | (name, rs) :: rest =>
-        match find (nrule_match (mkReq host 0 [] None)) rs with
+        match find (nrule_match (mkReq host 0 [] None [])) rs with
         | Some r => Some (name, r)
         | None => first_service rest host
         end
@@ -250,45 +376,103 @@ Section Engines.
   Definition match_services (st : settings) (host : bytes) : result :=
     if negb (st_protection st) then no_result
     else match first_service (st_services st) host with
-         | Some (name, r) => mkResult FilteredBlockedService true name [(nr_id r, None)]
+         | Some (name, r) => plain_result FilteredBlockedService true name [(nr_id r, None)]
          | None => no_result
          end.
 
   Definition check_safebrowsing (st : settings) (host : bytes) : result :=
     if st_protection st && st_safebrowsing st && sb_oracle host
-    then mkResult FilteredSafeBrowsing true [] [(0, None)] else no_result.
+    then plain_result FilteredSafeBrowsing true [] [(0, None)] else no_result.
 
   Definition check_parental (st : settings) (host : bytes) : result :=
     if st_protection st && st_parental st && par_oracle host
-    then mkResult FilteredParental true [] [(0, None)] else no_result.
+    then plain_result FilteredParental true [] [(0, None)] else no_result.
 
-  (** The checkers in the order of filtering.New's literal (the hosts
-      container and safe search are not configured). *)
-  Inductive checker := ChkRules | ChkServices | ChkSafeBrowsing | ChkParental.
+  (** checkSafeSearch (a safe-search filter is always installed; whether it
+      holds rules is part of the oracle) *)
+  Definition check_safesearch (c : cfg) (st : settings) (host : bytes) (qt : N) : result :=
+    if negb (st_protection st) || negb (st_safesearch st) then no_result
+    else match ss_oracle host qt with
+         | None => no_result
+         | Some (SSAddr a) => mkResult FilteredSafeSearch true [] [(0, Some a)] [] [] None
+         | Some (SSCname n) => mkResult FilteredSafeSearch true [] [] n [] None
+         end.
 
-  Definition checker_order : list checker := [ChkRules; ChkServices; ChkSafeBrowsing; ChkParental].
+  (** matchSysHosts / hostsRewrites *)
+  Definition match_sys_hosts (c : cfg) (st : settings) (host : bytes) (qt : N) : result :=
+    if negb (st_filtering st) || negb (c_hosts_on c) then no_result
+    else if (qt =? tA) || (qt =? tAAAA) then
+      match assoc_bytes (c_hosts_byname c) host with
+      | None | Some [] => no_result
+      | Some addrs =>
+          let valid := filter (fun a => if qt =? tA then is4 a else negb (is4 a)) addrs in
+          mkResult RewrittenAutoHosts false [] (map (fun _ => (0, None)) addrs) [] []
+                   (Some (mkDRW 0 (map (fun a => (qt, VAddr a)) valid)))
+      end
+    else if qt =? tPTR then
+      match assoc_bytes (c_arpa c) host with
+      | None => no_result
+      | Some a =>
+          match assoc_addr (c_hosts_byaddr c) a with
+          | None | Some [] => no_result
+          | Some names =>
+              mkResult RewrittenAutoHosts false [] (map (fun _ => (0, None)) names) [] []
+                       (Some (mkDRW 0 (map (fun n => (qt, VName n)) names)))
+          end
+      end
+    else no_result.
 
-  Definition run_checker (k : checker) (st : settings) (host : bytes) (qt : N) : result :=
+  (** The checkers in the order of filtering.New's literal. *)
+  Inductive checker := ChkSysHosts | ChkRules | ChkServices | ChkSafeBrowsing | ChkParental | ChkSafeSearch.
+
+  Definition checker_order : list checker :=
+    [ChkSysHosts; ChkRules; ChkServices; ChkSafeBrowsing; ChkParental; ChkSafeSearch].
+
+  Definition run_checker (c : cfg) (k : checker) (st : settings) (host : bytes) (qt : N) : result :=
     match k with
+    | ChkSysHosts => match_sys_hosts c st host qt
     | ChkRules => match_host st host qt
     | ChkServices => match_services st host
     | ChkSafeBrowsing => check_safebrowsing st host
     | ChkParental => check_parental st host
+    | ChkSafeSearch => check_safesearch c st host qt
     end.
 
-  Fixpoint first_match (ks : list checker) (st : settings) (host : bytes) (qt : N) : result :=
+  Fixpoint first_match (c : cfg) (ks : list checker) (st : settings) (host : bytes) (qt : N) : result :=
     match ks with
     | [] => no_result
     | k :: rest =>
-        let r := run_checker k st host qt in
-        if matched r then r else first_match rest st host qt
+        let r := run_checker c k st host qt in
+        if matched r then r else first_match c rest st host qt
     end.
 
-  (** DNSFilter.CheckHost *)
-  Definition check_host (st : settings) (host : bytes) (qt : N) : result :=
+  (** processRewrites as CheckHost uses it: [Some r] with reason
+      RewrittenLegacy, [Some no_result] when the rewrites leave the name
+      alone, [None] when the model's chase ran out of fuel. *)
+  Definition legacy_rewrite (c : cfg) (host : bytes) (qt : N) : option result :=
+    match Rewrites.process_rewrites rw_sort (c_rewrites c) host qt with
+    | None => None
+    | Some r =>
+        match Rewrites.r_reason r with
+        | Rewrites.Rewritten =>
+            Some (mkResult RewrittenLegacy false [] [] (Rewrites.r_canon r)
+                           (map addr_of_ip (Rewrites.r_ips r)) None)
+        | Rewrites.NotFound => Some no_result
+        end
+    end.
+
+  (** DNSFilter.CheckHost: the legacy rewrites first (only with filtering on
+      for the client), then the checkers, first match wins. *)
+  Definition check_host (c : cfg) (st : settings) (host : bytes) (qt : N) : option result :=
     match host with
-    | [] => no_result
-    | _ => first_match checker_order st (lower host) qt
+    | [] => Some no_result
+    | _ =>
+        let h := lower host in
+        let rw := if st_filtering st then legacy_rewrite c h qt else Some no_result in
+        match rw with
+        | None => None
+        | Some r => if matched r then Some r else Some (first_match c checker_order st h qt)
+        end
     end.
 
   (** * Synthetic responses (msg.go) *)
@@ -298,6 +482,8 @@ Section Engines.
 
   Definition rec_a (c : cfg) (name : bytes) (a : addr) : rr := mkRR name (c_ttl c) (DA (mkTA a [])).
   Definition rec_aaaa (c : cfg) (name : bytes) (a : addr) : rr := mkRR name (c_ttl c) (DAAAA (mkTA a [])).
+  Definition rec_cname (c : cfg) (name target : bytes) : rr := mkRR name (c_ttl c) (DCNAME (fqdn target)).
+  Definition rec_ptr (c : cfg) (name target : bytes) : rr := mkRR name (c_ttl c) (DPTR (fqdn target)).
 
   Definition empty_ok : resp := mkResp rcSuccess [] false.
   Definition nodata : resp := mkResp rcSuccess [] true.
@@ -316,14 +502,17 @@ Section Engines.
   Definition ips_from_rules (r : result) : list addr :=
     uniq_addrs (flat_map (fun e => match snd e with Some a => [a] | None => [] end) (r_rules r)) [].
 
+  (** The address records genResponseWithIPs / getCNAMEWithIPs build. *)
+  Definition addr_records (c : cfg) (name : bytes) (qt : N) (ips : list addr) : list rr :=
+    if qt =? tA then
+      if forallb is4 ips then map (rec_a c name) ips else []
+    else if qt =? tAAAA then
+      map (rec_aaaa c name) (filter (fun a => negb (is4 a)) ips)
+    else [].
+
   (** genResponseWithIPs *)
   Definition response_with_ips (c : cfg) (name : bytes) (qt : N) (ips : list addr) : resp :=
-    if qt =? tA then
-      if forallb is4 ips then mkResp rcSuccess (map (rec_a c name) ips) false
-      else empty_ok
-    else if qt =? tAAAA then
-      mkResp rcSuccess (map (rec_aaaa c name) (filter (fun a => negb (is4 a)) ips)) false
-    else empty_ok.
+    mkResp rcSuccess (addr_records c name qt ips) false.
 
   Definition null_ip_response (c : cfg) (name : bytes) (qt : N) : resp :=
     if qt =? tA then response_with_ips c name qt [zero4]
@@ -347,28 +536,72 @@ Section Engines.
     | MRefused => refused
     end.
 
-  (** genBlockedHost for a block page given as an address (or not at all). *)
-  Definition blocked_host_response (c : cfg) (name : bytes) (qt : N) (h : blockhost) : resp :=
-    match h with
-    | BHEmpty => servfail
-    | BHAddr a => response_with_ips c name qt [a]
+  (** getCNAMEWithIPs: the CNAME record first (when there is one), then the
+      addresses under the canonical name. *)
+  Definition cname_with_ips (c : cfg) (name : bytes) (qt : N) (ips : list addr) (cname : bytes) : resp :=
+    match cname with
+    | [] => mkResp rcSuccess (addr_records c name qt ips) false
+    | _ => mkResp rcSuccess (rec_cname c name cname :: addr_records c (fqdn cname) qt ips) false
     end.
 
-  (** genDNSFilterMessage *)
-  Definition filter_message (c : cfg) (name : bytes) (qt : N) (r : result) : resp :=
+  (** The upstream: None = resolution error (dnsproxy then leaves a SERVFAIL
+      in the context and the handler returns the error). *)
+  Definition upstream := bytes -> N -> option resp.
+
+  Definition rename_rr (name : bytes) (r : rr) : rr := mkRR name (rr_ttl r) (rr_data r).
+
+  (** genBlockedHost: a block page given as a name is resolved through the
+      proxy with the type of the question; the answers are renamed. *)
+  Definition blocked_host_response (c : cfg) (up : upstream) (name : bytes) (qt : N) (h : blockhost)
+      : resp * list (bytes * N) :=
+    match h with
+    | BHEmpty => (servfail, [])
+    | BHAddr a => (response_with_ips c name qt [a], [])
+    | BHName n =>
+        match up (fqdn n) qt with
+        | None => (servfail, [(fqdn n, qt)])
+        | Some r => (mkResp rcSuccess (map (rename_rr name) (rs_answer r)) false, [(fqdn n, qt)])
+        end
+    end.
+
+  (** genDNSFilterMessage: the answer and the questions it sent upstream. *)
+  Definition filter_message (c : cfg) (up : upstream) (name : bytes) (qt : N) (r : result)
+      : resp * list (bytes * N) :=
     if negb ((qt =? tA) || (qt =? tAAAA) || (qt =? tHTTPS)) then
-      match c_mode c with MNullIP => empty_ok | _ => nodata end
+      (match c_mode c with MNullIP => empty_ok | _ => nodata end, [])
     else
       match r_reason r with
-      | FilteredSafeBrowsing => blocked_host_response c name qt (c_sb_host c)
-      | FilteredParental => blocked_host_response c name qt (c_par_host c)
-      | _ => for_blocking_mode c name qt (ips_from_rules r)
+      | FilteredSafeBrowsing => blocked_host_response c up name qt (c_sb_host c)
+      | FilteredParental => blocked_host_response c up name qt (c_par_host c)
+      | FilteredSafeSearch => (cname_with_ips c name qt (ips_from_rules r) (r_canon r), [])
+      | _ => (for_blocking_mode c name qt (ips_from_rules r), [])
       end.
 
-  (** * Response filtering (filter.go) *)
+  (** filterDNSRewrite: the answer of a $dnsrewrite / hosts-file result.
+      None = the handler fails ("no dns rewrite rule content"). *)
+  Definition rewrite_answer (c : cfg) (name : bytes) (ty : N) (v : rrvalue) : list rr :=
+    if (ty =? tA) then match v with VAddr a => [rec_a c name a] | _ => [] end
+    else if (ty =? tAAAA) then match v with VAddr a => [rec_aaaa c name a] | _ => [] end
+    else if (ty =? tPTR) then match v with VName n => [rec_ptr c name n] | _ => [] end
+    else [].
 
-  Definition trim_dot (s : bytes) : bytes :=
-    match rev s with 46 :: r => rev r | _ => s end.
+  Definition dns_rewrite_response (c : cfg) (name : bytes) (qt : N) (r : result) : option resp :=
+    match r_drw r with
+    | None => None
+    | Some d =>
+        if negb (dw_rcode d =? 0) then Some (mkResp (dw_rcode d) [] false)
+        else
+          let vals := filter (fun p => fst p =? qt) (dw_resp d) in
+          Some (mkResp rcSuccess (flat_map (fun p => rewrite_answer c name qt (snd p)) vals) false)
+    end.
+
+  (** isRewrittenCNAME *)
+  Definition is_rewritten_cname (r : result) : bool :=
+    (match r_reason r with RewrittenLegacy | RewrittenRule | FilteredSafeSearch => true | _ => false end) &&
+    (match r_canon r with [] => false | _ => true end) &&
+    (match r_iplist r with [] => true | _ => false end).
+
+  (** * Response filtering (filter.go) *)
 
   Definition is_v6_hint (p : svcparam) : bool := match p with SPv6 _ => true | _ => false end.
 
@@ -420,7 +653,7 @@ Section Engines.
         let res := check_host_rules st (ta_text a) tAAAA in
         if r_filtered res then Some res else None
     | DHTTPS ps => filter_https st ps
-    | DOther _ _ => None
+    | DPTR _ | DOther _ _ => None
     end.
 
   (** filterDNSResponse: walks the answer; returns the records as they are
@@ -444,20 +677,23 @@ Section Engines.
     o_calls : list (bytes * N);        (* questions sent upstream *)
     o_result : result;                 (* filtering result handed to the log *)
     o_orig_kept : bool;                (* upstream response kept as original answer *)
-    o_logged : bool                    (* reached query log / statistics *)
+    o_logged : bool;                   (* reached query log / statistics *)
+    o_qname : bytes                    (* question name of the delivered message *)
   }.
 
   Definition mozilla_fqdn : bytes :=
     [117;115;101;45;97;112;112;108;105;99;97;116;105;111;110;45;100;110;115;46;110;101;116;46].
   Definition healthcheck_fqdn : bytes :=
     [104;101;97;108;116;104;99;104;101;99;107;46;97;100;103;117;97;114;100;104;111;109;101;46;116;101;115;116;46].
+  (** "_dns.resolver.arpa." *)
+  Definition ddr_fqdn : bytes :=
+    [95;100;110;115;46;114;101;115;111;108;118;101;114;46;97;114;112;97;46].
 
-  (** The upstream: None = resolution error (dnsproxy then leaves a SERVFAIL
-      in the context and the handler returns the error). *)
-  Definition upstream := bytes -> N -> option resp.
-
-  Inductive stage := StInitial | StFilterBefore | StUpstream | StFilterAfter | StLog.
-  Definition stage_order : list stage := [StInitial; StFilterBefore; StUpstream; StFilterAfter; StLog].
+  Inductive stage :=
+    | StInitial | StDDR | StDHCPHosts | StDHCPAddrs | StFilterBefore | StUpstream | StFilterAfter
+    | StIpset | StLog.
+  Definition stage_order : list stage :=
+    [StInitial; StDDR; StDHCPHosts; StDHCPAddrs; StFilterBefore; StUpstream; StFilterAfter; StIpset; StLog].
 
   Record pstate := mkPState {
     ps_resp : option resp;
@@ -465,43 +701,163 @@ Section Engines.
     ps_result : result;
     ps_orig_kept : bool;
     ps_from_upstream : bool;
-    ps_logged : bool
+    ps_logged : bool;
+    ps_qname : bytes;                  (* Question[0].Name of the request, as it stands *)
+    ps_orig_q : option bytes;          (* origQuestion.Name once the question was rewritten *)
+    ps_dhcp_host : bool;               (* isDHCPHost *)
+    ps_resp_qname : bytes              (* question name inside the response *)
   }.
+
+  Definition set_resp (p : pstate) (r : resp) : pstate :=
+    mkPState (Some r) (ps_calls p) (ps_result p) (ps_orig_kept p) (ps_from_upstream p) (ps_logged p)
+             (ps_qname p) (ps_orig_q p) (ps_dhcp_host p) (ps_qname p).
 
   Inductive rc := RcSuccess | RcFinish | RcError.
 
+  (** dhcpHostFromRequest: the host label of an A/AAAA question for an
+      immediate subdomain of the local domain. *)
+  Definition dhcp_host_from_request (c : cfg) (q : request) : option bytes :=
+    if negb (c_dhcp_on c) then None
+    else if negb ((q_qtype q =? tA) || (q_qtype q =? tAAAA)) then None
+    else
+      let h := lower (removelast (q_name q)) in
+      let suf := 46 :: c_local_suffix c in
+      if has_suffix suf h then
+        let label := firstn (length h - length suf) h in
+        match label with
+        | [] => None
+        | _ => if existsb (N.eqb 46) label then None else Some label
+        end
+      else None.
+
+  (** mapDNS64 *)
+  Definition map_dns64 (pref : N) (a : addr) : addr := mkAddr V6 (pref + a_val a) [].
+
+  Definition ddr_response (c : cfg) (q : request) (ids : list N) : resp :=
+    if q_qtype q =? tSVCB
+    then mkResp rcSuccess (map (fun id => mkRR (q_name q) (c_ttl c) (DOther tSVCB id)) ids) false
+    else empty_ok.
+
+  (** filterDNSRequest applied to the verdict of CheckHost. *)
+  Definition apply_request_verdict (c : cfg) (up : upstream) (q : request) (p : pstate) (res : result)
+      : rc * pstate :=
+    let name := ps_qname p in
+    let qt := q_qtype q in
+    if is_rewritten_cname res then
+      (RcSuccess, mkPState None (ps_calls p) res false false false (fqdn (r_canon res)) (Some name)
+                           (ps_dhcp_host p) (ps_resp_qname p))
+    else if r_filtered res then
+      let '(r, calls) := filter_message c up name qt res in
+      (RcSuccess, mkPState (Some r) (ps_calls p ++ calls) res false false false name None
+                           (ps_dhcp_host p) name)
+    else
+      match r_reason res with
+      | RewrittenLegacy | FilteredSafeSearch =>
+          (RcSuccess, mkPState (Some (cname_with_ips c name qt (r_iplist res) (r_canon res))) (ps_calls p) res
+                               false false false name None (ps_dhcp_host p) name)
+      | RewrittenRule | RewrittenAutoHosts =>
+          match dns_rewrite_response c name qt res with
+          | None => (RcError, mkPState None (ps_calls p) (ps_result p) false false false name None
+                                       (ps_dhcp_host p) (ps_resp_qname p))
+          | Some r => (RcSuccess, mkPState (Some r) (ps_calls p) res false false false name None
+                                           (ps_dhcp_host p) name)
+          end
+      | _ => (RcSuccess, mkPState None (ps_calls p) res false false false name None
+                                  (ps_dhcp_host p) (ps_resp_qname p))
+      end.
+
   Definition run_stage (c : cfg) (up : upstream) (q : request) (s : stage) (p : pstate) : rc * pstate :=
-    let st := client_settings c q in
+    let st := request_settings c q in
     match s with
     | StInitial =>
-        if c_aaaa_disabled c && (q_qtype q =? tAAAA) then
-          (RcFinish, mkPState (Some nodata) (ps_calls p) (ps_result p) false false false)
+        if c_aaaa_disabled c && (q_qtype q =? tAAAA) then (RcFinish, set_resp p nodata)
         else if ((q_qtype q =? tA) || (q_qtype q =? tAAAA)) && eqb_bytes (q_name q) mozilla_fqdn then
-          (RcFinish, mkPState (Some nxdomain) (ps_calls p) (ps_result p) false false false)
-        else if eqb_bytes (q_name q) healthcheck_fqdn then
-          (RcFinish, mkPState (Some empty_ok) (ps_calls p) (ps_result p) false false false)
+          (RcFinish, set_resp p nxdomain)
+        else if eqb_bytes (q_name q) healthcheck_fqdn then (RcFinish, set_resp p empty_ok)
         else (RcSuccess, p)
+    | StDDR =>
+        match c_ddr c with
+        | Some ids =>
+            if eqb_bytes (q_name q) ddr_fqdn then (RcFinish, set_resp p (ddr_response c q ids))
+            else (RcSuccess, p)
+        | None => (RcSuccess, p)
+        end
+    | StDHCPHosts =>
+        match dhcp_host_from_request c q with
+        | None => (RcSuccess, p)
+        | Some host =>
+            let p' := mkPState (ps_resp p) (ps_calls p) (ps_result p) (ps_orig_kept p) (ps_from_upstream p)
+                               (ps_logged p) (ps_qname p) (ps_orig_q p) true (ps_resp_qname p) in
+            if negb (q_private_client q) then (RcFinish, set_resp p' nxdomain)
+            else
+              match assoc_bytes (c_dhcp_hosts c) host with
+              | None => (RcSuccess, p')
+              | Some ip =>
+                  let ans :=
+                    if q_qtype q =? tA then [rec_a c (q_name q) ip]
+                    else match c_dns64 c with
+                         | Some pref => [rec_aaaa c (q_name q) (map_dns64 pref ip)]
+                         | None => []
+                         end in
+                  (RcSuccess, set_resp p' (mkResp rcSuccess ans false))
+              end
+        end
+    | StDHCPAddrs =>
+        match ps_resp p with
+        | Some _ => (RcSuccess, p)
+        | None =>
+            match q_private_rdns q with
+            | None => (RcSuccess, p)
+            | Some a =>
+                if negb (q_qtype q =? tPTR) then (RcSuccess, p)
+                else match assoc_addr (c_dhcp_addrs c) a with
+                     | None | Some [] => (RcSuccess, p)
+                     | Some host =>
+                         (RcSuccess, set_resp p (mkResp rcSuccess
+                            [rec_ptr c (q_name q) (host ++ 46 :: c_local_suffix c)] false))
+                     end
+            end
+        end
     | StFilterBefore =>
         match ps_resp p with
         | Some _ => (RcSuccess, p)
         | None =>
-            let res := check_host st (trim_dot (q_name q)) (q_qtype q) in
-            let r := if r_filtered res then Some (filter_message c (q_name q) (q_qtype q) res) else None in
-            (RcSuccess, mkPState r (ps_calls p) res false false false)
+            match check_host c st (trim_dot (ps_qname p)) (q_qtype q) with
+            | None => (RcError, p)
+            | Some res => apply_request_verdict c up q p res
+            end
         end
     | StUpstream =>
         match ps_resp p with
         | Some _ => (RcSuccess, p)
         | None =>
-            let calls := ps_calls p ++ [(q_name q, q_qtype q)] in
-            match up (q_name q) (q_qtype q) with
-            | None => (RcError, mkPState (Some servfail) calls (ps_result p) false false false)
-            | Some r => (RcSuccess, mkPState (Some r) calls (ps_result p) false true false)
-            end
+            if ps_dhcp_host p then (RcFinish, set_resp p nxdomain)
+            else
+              let calls := ps_calls p ++ [(ps_qname p, q_qtype q)] in
+              match up (ps_qname p) (q_qtype q) with
+              | None =>
+                  (* the client's question is put back when it had been rewritten *)
+                  let qn := match ps_orig_q p with Some o => o | None => ps_qname p end in
+                  (RcError, mkPState (Some servfail) calls (ps_result p) false false false
+                                     qn (ps_orig_q p) false qn)
+              | Some r => (RcSuccess, mkPState (Some r) calls (ps_result p) false true false
+                                               (ps_qname p) (ps_orig_q p) false (ps_qname p))
+              end
         end
     | StFilterAfter =>
         match r_reason (ps_result p) with
         | NotFilteredAllowList => (RcSuccess, p)
+        | RewrittenLegacy | RewrittenRule | FilteredSafeSearch =>
+            match ps_orig_q p, ps_resp p with
+            | Some o, Some r =>
+                (* the question is put back and the CNAME prepended; the
+                   upstream's records are not examined *)
+                (RcSuccess, mkPState (Some (mkResp (rs_rcode r)
+                                              (rec_cname c o (r_canon (ps_result p)) :: rs_answer r) (rs_soa r)))
+                                     (ps_calls p) (ps_result p) (ps_orig_kept p) (ps_from_upstream p)
+                                     (ps_logged p) o (ps_orig_q p) (ps_dhcp_host p) o)
+            | _, _ => (RcSuccess, p)
+            end
         | _ =>
             if negb (protection_on c) || negb (ps_from_upstream p) || negb (st_filtering st) then (RcSuccess, p)
             else
@@ -511,16 +867,20 @@ Section Engines.
                   let '(ans', res) := filter_answer c st (rs_answer r) in
                   match res with
                   | Some fr =>
-                      (RcSuccess, mkPState (Some (filter_message c (q_name q) (q_qtype q) fr))
-                                           (ps_calls p) fr true true false)
+                      (RcSuccess, mkPState (Some (fst (filter_message c up (ps_qname p) (q_qtype q) fr)))
+                                           (ps_calls p) fr true true false
+                                           (ps_qname p) (ps_orig_q p) (ps_dhcp_host p) (ps_qname p))
                   | None =>
                       (RcSuccess, mkPState (Some (mkResp (rs_rcode r) ans' (rs_soa r)))
-                                           (ps_calls p) (ps_result p) false true false)
+                                           (ps_calls p) (ps_result p) false true false
+                                           (ps_qname p) (ps_orig_q p) (ps_dhcp_host p) (ps_resp_qname p))
                   end
               end
         end
+    | StIpset => (RcSuccess, p)
     | StLog =>
-        (RcSuccess, mkPState (ps_resp p) (ps_calls p) (ps_result p) (ps_orig_kept p) (ps_from_upstream p) true)
+        (RcSuccess, mkPState (ps_resp p) (ps_calls p) (ps_result p) (ps_orig_kept p) (ps_from_upstream p) true
+                             (ps_qname p) (ps_orig_q p) (ps_dhcp_host p) (ps_resp_qname p))
     end.
 
   Fixpoint run_stages (c : cfg) (up : upstream) (q : request) (ss : list stage) (p : pstate) : pstate :=
@@ -533,7 +893,12 @@ Section Engines.
         end
     end.
 
+  Definition init_state (q : request) : pstate :=
+    mkPState None [] no_result false false false (q_name q) None false (q_name q).
+
+  Definition outcome_of (p : pstate) : outcome :=
+    mkOutcome (ps_resp p) (ps_calls p) (ps_result p) (ps_orig_kept p) (ps_logged p) (ps_resp_qname p).
+
   Definition process (c : cfg) (up : upstream) (q : request) : outcome :=
-    let p := run_stages c up q stage_order (mkPState None [] no_result false false false) in
-    mkOutcome (ps_resp p) (ps_calls p) (ps_result p) (ps_orig_kept p) (ps_logged p).
+    outcome_of (run_stages c up q stage_order (init_state q)).
 End Engines.
